@@ -288,7 +288,7 @@ Proof.
     { apply lookup_none_notin. rewrite HCk. intro Hin. exact (Hft _ Hin eq_refl). }
     destruct t as [|ch t1].
     + rewrite (Hadd A' HfA). rewrite finish_none. reflexivity.
-    + destruct A' as [|a0 A0] eqn:EA.
+    + cbv zeta. destruct A' as [|a0 A0] eqn:EA.
       * rewrite (Hadd [] (fun _ _ => eq_refl)). cbn [app]. unfold finish_elem.
         destruct C as [|c0 C0] eqn:EC; [reflexivity|].
         rewrite (set_fresh _ _ _ HtC). reflexivity.
@@ -300,6 +300,139 @@ Proof.
     + cbn [XmlRT.imgsG imgs]. rewrite elem_val_scalar. unfold trimv. rewrite trim_nil. reflexivity.
     + cbn [XmlRT.imgsG imgs]. apply flat_map_ext_in'. intros x Hx.
       rewrite Forall_forall in H. apply (H x Hx). cbn [dom03] in Hd. rewrite forallb_forall in Hd. apply Hd, Hx.
+Qed.
+
+(* ---------------- one root element ---------------- *)
+Lemma dom03_kne v : dom03 o v = true -> kne v = true.
+Proof. intro H. apply (wdom_kne o (o3_tk o H3) (o3_tkne o H3)), dom03_wdom, H. Qed.
+
+Definition decodes_img (E : list item) (x : value) : Prop :=
+  wf_items E /\ single_root E /\
+  forall ws, ws_ok o ws ->
+    xml_decode pf nskip o false (toks_of_items (insert_ws ws E)) TermEOF = Ok x.
+
+Lemma enc_root v key : is_list v = false -> name_okb key = true -> dom03 o v = true ->
+  exists E, enc o v key = Ok E /\ decodes_img E (VMap [(key, img o v)]).
+Proof.
+  intros Hl Hk Hd. pose proof (dom03_wdom v Hd) as Hw.
+  destruct (enc_total o v key Hw) as [E HE]. exists E. split; [exact HE|].
+  destruct (enc_elems o (o3_tk o H3) v key E Hk Hw HE) as [n [Hel Hn]]. rewrite (Hn Hl) in Hel.
+  destruct (enc_decodes pf o false (o3_seq o H3) (o3_xmpp o H3) v key E (name_ok_ne key Hk) (dom03_kne v Hd) HE)
+    as [_ Hs]. destruct (Hs Hl) as [x [Hx Hsgl]].
+  rewrite (imgsG_imgs v key Hd) in Hx. rewrite xform_id in Hsgl.
+  split; [exact (elems_wf 1 E Hel)|]. split; [exact (elems_single_root E Hel)|].
+  intros ws Hws. unfold img. rewrite Hx. cbn [collapse].
+  apply (sgl_top pf o false (o3_xmpp o H3) E key x ws Hsgl Hws).
+Qed.
+
+Lemma default_root_ok : name_okb default_root = true.
+Proof. reflexivity. Qed.
+
+Lemma map_items_single k v : is_list v = false ->
+  map_xml_items o [(k, v)] None = enc o v k /\ map_xml_indent_items o [(k, v)] None = enc o v k.
+Proof. destruct v; try discriminate; intros _; split; reflexivity. Qed.
+
+Theorem encode_img_xml m : root_ok o m = true ->
+  exists its, map_xml_items o m None = Ok its /\ decodes_img its (img_map o m).
+Proof.
+  intro Hr. destruct m as [|[k v] [|kv2 m2]].
+  - apply (enc_root (VMap []) default_root eq_refl default_root_ok Hr).
+  - cbn [root_ok] in Hr. apply andb_true_iff in Hr. destruct Hr as [Hr Hd].
+    apply andb_true_iff in Hr. destruct Hr as [Hl Hk]. apply negb_true_iff in Hl.
+    rewrite (proj1 (map_items_single k v Hl)). cbn [img_map]. rewrite Hl.
+    apply (enc_root v k Hl Hk Hd).
+  - apply (enc_root (VMap ((k, v) :: kv2 :: m2)) default_root eq_refl default_root_ok Hr).
+Qed.
+
+Theorem encode_img_xml_indent m : root_ok o m = true ->
+  exists its, map_xml_indent_items o m None = Ok its /\ decodes_img its (img_map o m).
+Proof.
+  intro Hr. destruct m as [|[k v] [|kv2 m2]].
+  - apply (enc_root (VMap []) default_root eq_refl default_root_ok Hr).
+  - cbn [root_ok] in Hr. apply andb_true_iff in Hr. destruct Hr as [Hr Hd].
+    apply andb_true_iff in Hr. destruct Hr as [Hl Hk]. apply negb_true_iff in Hl.
+    rewrite (proj2 (map_items_single k v Hl)). cbn [img_map]. rewrite Hl.
+    apply (enc_root v k Hl Hk Hd).
+  - apply (enc_root (VMap ((k, v) :: kv2 :: m2)) default_root eq_refl default_root_ok Hr).
+Qed.
+
+(* ---------------- AnyXml ---------------- *)
+Lemma add_child_grouped k v na : add_child k v na = insert_grouped k v na.
+Proof.
+  induction na as [|[k' v'] t IH]; [reflexivity|].
+  unfold add_child in *. cbn [lookup insert_grouped].
+  destruct (str_eqb k k') eqn:E.
+  - destruct v'; cbn [set]; rewrite ?E; reflexivity.
+  - rewrite <- IH. destruct (lookup k t) as [[]|]; cbn [set]; rewrite ?E; reflexivity.
+Qed.
+Lemma add_all_group X : forall na, add_all X na = group_children X na.
+Proof.
+  unfold add_all, group_children. induction X as [|kv X IH]; intro na; cbn [fold_left]; [reflexivity|].
+  rewrite add_child_grouped. apply IH.
+Qed.
+
+Definition any_fm (et : str) (vv : value) : res (list item) :=
+  match vv with VMap [(tag, val)] => enc o val tag | _ => enc o vv et end.
+
+Lemma any_member et vv : name_okb et = true -> any_member_ok o vv = true ->
+  exists E n, any_fm et vv = Ok E /\ elems n E /\ decodes_to pf o false E (any_children o et [vv]).
+Proof.
+  intros Het Hm.
+  assert (Hgen : forall v key, name_okb key = true -> dom03 o v = true ->
+            exists E n, enc o v key = Ok E /\ elems n E /\ decodes_to pf o false E (map (pair key) (imgs o v))).
+  { intros v key Hk Hd. pose proof (dom03_wdom v Hd) as Hw.
+    destruct (enc_total o v key Hw) as [E HE]. exists E.
+    destruct (enc_elems o (o3_tk o H3) v key E Hk Hw HE) as [n [Hel _]]. exists n.
+    split; [exact HE|]. split; [exact Hel|].
+    destruct (enc_decodes pf o false (o3_seq o H3) (o3_xmpp o H3) v key E (name_ok_ne key Hk) (dom03_kne v Hd) HE)
+      as [Hdec _]. rewrite (imgsG_imgs v key Hd), xform_id in Hdec. exact Hdec. }
+  unfold any_children. cbn [flat_map]. rewrite app_nil_r.
+  destruct vv as [x|b| |z|z|z|f|x|m|l]; try (apply (Hgen _ et Het Hm)).
+  destruct m as [|[tag val] [|kv2 m2]]; try (apply (Hgen _ et Het Hm)).
+  cbn [any_member_ok] in Hm. apply andb_true_iff in Hm. destruct Hm as [Ht Hd].
+  apply (Hgen val tag Ht Hd).
+Qed.
+
+Lemma any_members et l : name_okb et = true -> forallb (any_member_ok o) l = true ->
+  exists body n, concat_res (map (any_fm et) l) = Ok body /\ elems n body /\
+    ((body = [] /\ any_children o et l = []) \/ decodes_to pf o false body (any_children o et l)).
+Proof.
+  intros Het. induction l as [|a l IH]; intro Hall.
+  - exists [], 0. split; [reflexivity|]. split; [apply elems_nil|]. left. split; reflexivity.
+  - cbn [forallb] in Hall. apply andb_true_iff in Hall. destruct Hall as [Ha Hl].
+    destruct (any_member et a Het Ha) as [E1 [n1 [HE1 [Hel1 Hd1]]]].
+    destruct (IH Hl) as [b [n2 [Hb [Hel2 Hd2]]]].
+    exists (E1 ++ b), (n1 + n2). cbn [map concat_res]. rewrite HE1, Hb. cbn [bind].
+    split; [reflexivity|]. split; [apply elems_app; assumption|]. right.
+    replace (any_children o et (a :: l)) with (any_children o et [a] ++ any_children o et l)
+      by (unfold any_children; cbn [flat_map]; rewrite app_nil_r; reflexivity).
+    destruct Hd2 as [[-> Hnil]|Hd2].
+    + rewrite Hnil, !app_nil_r. exact Hd1.
+    + apply decodes_to_app; assumption.
+Qed.
+
+Theorem encode_img_any v rt et : any_ok o v rt et = true ->
+  exists its, any_xml_items o v rt et = Ok its /\ decodes_img its (img_any o v rt et).
+Proof.
+  unfold any_ok. intro H. apply andb_true_iff in H. destruct H as [H Hv].
+  apply andb_true_iff in H. destruct H as [Hrt Het].
+  destruct v as [x|b| |z|z|z|f|x|m|l];
+    try (cbn [any_xml_items img_any map_xml_items]; apply enc_root; [reflexivity | exact Hrt | exact Hv]).
+  1: { apply (enc_root VNil rt eq_refl Hrt Hv). }
+  (* a list: the children of rt *)
+  destruct (any_members et l Het Hv) as [body [n [Hb [Hel Hdec]]]].
+  cbn [any_xml_items]. fold (any_fm et). rewrite Hb. cbn [bind].
+  eexists. split; [reflexivity|].
+  assert (Hels : elems 1 (IOpen rt [] :: body ++ [IClose rt])) by (apply (elems_wrap rt [] n body Hrt eq_refl Hel)).
+  split; [exact (elems_wf 1 _ Hels)|]. split; [exact (elems_single_root _ Hels)|].
+  intros ws Hws.
+  pose proof (sgl_element pf o false rt [] None body (any_children o et l)
+                (xform_key_ne o rt (name_ok_ne rt Hrt)) Hdec) as Hs.
+  cbn [txt_items txt_read app] in Hs. rewrite xform_id in Hs.
+  rewrite (sgl_top pf o false (o3_xmpp o H3) _ rt _ ws Hs Hws).
+  cbn [img_any]. do 3 f_equal.
+  change (attr_entries pf nskip o false (map mkattr [])) with (@nil (str * value)).
+  rewrite elem_val_03. unfold trimv. rewrite trim_nil. rewrite add_all_group, finish_none. reflexivity.
 Qed.
 
 End P.
